@@ -179,3 +179,60 @@ class ConversionTargetOperators(Harness):
 
 def harnesses(tier):
     return [FloatOperands(), JsonRendering(), LexerEscapes(), ConversionTargetOperators()]
+
+
+# --------------------------------------------------------------------------------------------------------------
+# Names that are not found go to the suggestion search.  The query text is arbitrary - also non-ASCII, where a byte offset
+# is not a character offset.
+
+class SearchQueryText(Harness):
+    name = 'search_internal.any_query_text'
+    props = ('C04',)
+    entry = 'commands::search::search_internal'
+    loop_bound = 120
+    max_paths = 4000
+    _concrete = None
+    describe = ('search_internal on a query of 1 / 14 / 41 characters, each an ASCII letter or a two- or three-byte character (symbolic): whatever '
+                'it does with the text before scoring (byte lengths and byte offsets follow the UTF-8 width of every character), it does not panic; '
+                'the scoring itself (search_impl: jaro_winkler, BinaryHeap) is stubbed')
+    bounds = ['query lengths 1, 14, 41 characters over {a..z, U+00E9, U+5358}; empty database']
+    expect_classes = ['return']
+    stubs = ((r'^search_impl$', lambda ex, nc, a: Arr([]), 'algorithms::search_impl -> no results (scoring is outside: C17 territory)'),)
+
+    def build(self, ex, I):
+        n = [1, 14, 41][ex.choose(3, 'query length')]
+        cs = []
+        for i in range(n):
+            c = I.int('q%d' % i)
+            ex.assume(z3.Or(z3.And(c >= 97, c <= 122), c == 0xE9, c == 0x5358))
+            cs.append(c)
+        reg = make_struct(ex, 'Registry', {'base_units': MapV(), 'units': MapV(), 'substances': MapV()})
+        ctxv = make_struct(ex, 'Context', {'registry': reg, 'temporaries': MapV(), 'previous_result': none(ex)})
+        return [ref(ctxv), SymStr(cs, True), 5], {'n': n}
+
+    def post(self, ex, ctx, outcome):
+        return []
+
+    def prefer(self, ctx):
+        return []
+
+    def _text(self, inputs):
+        k = len([x for x in inputs if x.startswith('q') and x[1:].isdigit()])
+        return ''.join(chr(int(inputs['q%d' % i])) for i in range(k))
+
+    def native(self, inputs, label):
+        t = self._text(inputs)
+        return [{'mode': 'query', 'text': t}, {'mode': 'query', 'text': 'search ' + t}, {'mode': 'query', 'text': '1 ' + t + ' -> m'}]
+
+    def judge(self, inputs, label, obs):
+        t = self._text(inputs)
+        bad = ['`%s` panics: %s' % (q, o.get('panic') or o.get('render_panic')) for q, o in zip((t, 'search ' + t, '1 ' + t + ' -> m'), obs)
+               if o.get('outcome') == 'panic' or o.get('render_panic')]
+        return bool(bad), '; '.join(bad[:2]) or 'no panic on `%s`' % t
+
+
+_c04_prev = harnesses
+
+
+def harnesses(tier):   # noqa: F811
+    return _c04_prev(tier) + [SearchQueryText()]
